@@ -63,9 +63,8 @@ def ceilInt (a : Int) : Int :=
   if m > 0 then q + 1 else q
 def ceil (a : Int) : Int := ceilInt a * P
 
-/-- `assertInValidRange`: |raw| < 2^256 · 10^18 … Go checks `BitLen() > maxDecBitLen (315)`. -/
-def maxDecBitLen : Nat := 315
-def inRange (a : Int) : Bool := a.natAbs < 2 ^ maxDecBitLen
+/-- `assertInValidRange` (`IsInValidRange`): |raw| ≤ 2^256 · 10^18 − 1. -/
+def inRange (a : Int) : Bool := a.natAbs < 2 ^ 256 * 1000000000000000000
 
 /-- `a.Power(n)` (`PowerMut`): square-and-multiply with a rounding `Mul` at each step. -/
 def powerAux : Nat → Int → Int → Nat → Int
